@@ -263,6 +263,13 @@ def mk(e, **meta):
     return r
 
 
+def mkw(e, width):
+    r = mk(e)
+    if isinstance(r, SymInt):
+        r.width = width
+    return r
+
+
 def mkb(e):
     e = z3.simplify(e)
     if z3.is_true(e):
@@ -309,6 +316,53 @@ def _mask_runs(m):
     return runs
 
 
+def _pow2_factor(e):
+    """(x, k) with e == x * 2**k syntactically (k maximal over numeral factors)."""
+    if z3.is_app(e) and e.decl().kind() == z3.Z3_OP_MUL and e.num_args() == 2:
+        c, x = e.arg(0), e.arg(1)
+        if z3.is_int_value(x):
+            c, x = x, c
+        if z3.is_int_value(c):
+            v = c.as_long()
+            if v > 0 and v & (v - 1) == 0:
+                return x, v.bit_length() - 1
+    return e, 0
+
+
+def div_pow2(e, k):
+    """floor(e / 2**k) with nested divisions and power-of-two factors folded:
+    floor(floor(x / 2^a) / 2^b) == floor(x / 2^(a+b));  floor(x*2^a / 2^b) ==
+    floor(x / 2^(b-a)) for b >= a,  x * 2^(a-b) otherwise."""
+    if k == 0:
+        return e
+    if z3.is_app(e) and e.decl().kind() == z3.Z3_OP_IDIV:
+        d = e.arg(1)
+        if z3.is_int_value(d):
+            v = d.as_long()
+            if v > 0 and v & (v - 1) == 0:
+                return div_pow2(e.arg(0), k + v.bit_length() - 1)
+    x, a = _pow2_factor(e)
+    if a:
+        if k >= a:
+            return div_pow2(x, k - a)
+        return x * z3.IntVal(1 << (a - k))
+    return e / z3.IntVal(1 << k)
+
+
+def fork_value(o):
+    """Concretise a symbolic integer known to lie in a small range by forking
+    one path per value (used for shift counts).  None if the range is not small."""
+    K = small_range(o)
+    if K is None:
+        return None
+    c = ctx()
+    eo = as_z3_int(o)
+    for k in range(K - 1):
+        if c.decide(eo == k):
+            return k
+    return K - 1
+
+
 def and_const_z3(a, m):
     """a & m for z3 int a and concrete int m (exact, infinite two's complement)."""
     if m == 0:
@@ -318,7 +372,7 @@ def and_const_z3(a, m):
         return a - and_const_z3(a, ~m)
     terms = []
     for lo, w in _mask_runs(m):
-        t = (a / z3.IntVal(1 << lo)) if lo else a
+        t = div_pow2(a, lo)
         t = t % z3.IntVal(1 << w)
         terms.append(t * z3.IntVal(1 << lo) if lo else t)
     r = terms[0]
@@ -341,7 +395,8 @@ def width_of(x):
         return w
     c = ctx()
     for k in (1, 8, 16, 32, 64, 128):
-        if c.valid(z3.And(x.e >= 0, x.e < z3.IntVal(1 << k))):
+        r, _ = c.check(z3.Not(z3.And(x.e >= 0, x.e < z3.IntVal(1 << k))), timeout=1000)
+        if r == z3.unsat:
             x.width = k
             return k
     return None
@@ -398,6 +453,9 @@ def and_sym(a, b):
         if s is not None and isinstance(p, SymInt):
             if c.valid(z3.And(p.e >= 0, p.e < pow2f(s))):
                 return p
+    ka, kbb = getattr(a, "kb", None), getattr(b, "kb", None)
+    if ka is not None and kbb is not None and ka & kbb == 0:
+        return 0
     wa, wb = width_of(a), width_of(b)
     ws = [w for w in (wa, wb) if w is not None]
     if not ws:
@@ -407,11 +465,23 @@ def and_sym(a, b):
         raise Undecided("bitwise operation wider than %d bits" % MAX_BLAST)
     ea, eb = as_z3_int(a), as_z3_int(b)
     terms = []
+    both = (1 << k) - 1
+    if ka is not None:
+        both &= ka
+    if kbb is not None:
+        both &= kbb
     for i in range(k):
-        ba = (ea / z3.IntVal(1 << i)) % 2 if i else ea % 2
-        bb = (eb / z3.IntVal(1 << i)) % 2 if i else eb % 2
+        if not (both >> i) & 1:
+            continue
+        ba = div_pow2(ea, i) % 2
+        bb = div_pow2(eb, i) % 2
         terms.append(z3.If(z3.And(ba == 1, bb == 1), z3.IntVal(1 << i), z3.IntVal(0)))
-    return mk(z3.Sum(terms), width=k)
+    if not terms:
+        return 0
+    r = mk(z3.Sum(terms) if len(terms) > 1 else terms[0])
+    if isinstance(r, SymInt):
+        r.kb = both
+    return r
 
 
 # ---------------------------------------------------------------- SymBool
@@ -491,16 +561,27 @@ def sym_not(x):
 # ---------------------------------------------------------------- SymInt
 
 class SymInt:
-    __slots__ = ("e", "width", "lowzeros", "allones", "pow2of", "modrange", "smallcount")
+    __slots__ = ("e", "kb", "lowzeros", "allones", "pow2of", "modrange", "smallcount")
 
     def __init__(self, e, width=None):
         self.e = e
-        self.width = width
+        # kb: known-bits mask -- the value is known to be >= 0 and to have no 1
+        # bit outside this mask (None: nothing known).  Maintained by
+        # construction; every rule that uses it is exact.
+        self.kb = None if width is None else (1 << width) - 1
         self.lowzeros = None
         self.allones = None
         self.pow2of = None
         self.modrange = None
         self.smallcount = None
+
+    @property
+    def width(self):
+        return None if self.kb is None else max(self.kb.bit_length(), 1)
+
+    @width.setter
+    def width(self, w):
+        self.kb = None if w is None else (1 << w) - 1
 
     # -- truthiness / conversion
     def __bool__(self):
@@ -535,7 +616,15 @@ class SymInt:
             raise Undecided("int + float")
         if not isinstance(o, (int, SymInt, SymBool)):
             return NotImplemented
-        return mk(self.e + as_z3_int(o))
+        r = mk(self.e + as_z3_int(o))
+        if isinstance(r, SymInt):
+            ka, ko = self.kb, self._kb_of(o)
+            if ka is not None and ko is not None:
+                if ka & ko == 0:
+                    r.kb = ka | ko
+                else:
+                    r.kb = (1 << (max(ka, ko).bit_length() + 1)) - 1
+        return r
 
     __radd__ = __add__
 
@@ -586,6 +675,11 @@ class SymInt:
         if not isinstance(o, (int, SymInt, SymBool)):
             return NotImplemented
         d = self._divcheck(o)
+        if isinstance(d, int) and d > 0 and d & (d - 1) == 0:
+            r = mk(div_pow2(self.e, d.bit_length() - 1))
+            if isinstance(r, SymInt) and self.kb is not None:
+                r.kb = self.kb >> (d.bit_length() - 1)
+            return r
         return mk(floordiv_z3(self.e, d))
 
     def __rfloordiv__(self, o):
@@ -599,7 +693,9 @@ class SymInt:
         d = self._divcheck(o)
         r = mk(mod_z3(self.e, d))
         if isinstance(r, SymInt) and isinstance(d, int) and d > 0:
-            r.width = max((d - 1).bit_length(), 1)
+            r.kb = (1 << max((d - 1).bit_length(), 1)) - 1
+            if d & (d - 1) == 0 and self.kb is not None:
+                r.kb = self.kb & (d - 1)
             r.modrange = d
         return r
 
@@ -631,25 +727,20 @@ class SymInt:
     # -- shifts
     def __lshift__(self, o):
         co = _concrete(o)
+        if co is None and isinstance(o, (SymInt, SymBool)):
+            eo = as_z3_int(o)
+            if ctx().decide(eo < 0):
+                raise ValueError("negative shift count")
+            co = fork_value(o)
         if co is not None:
             if co < 0:
                 raise ValueError("negative shift count")
             r = mk(self.e * z3.IntVal(1 << co))
-            if isinstance(r, SymInt) and self.width is not None:
-                r.width = self.width + co
+            if isinstance(r, SymInt) and self.kb is not None:
+                r.kb = self.kb << co
             return r
         if not isinstance(o, (SymInt, SymBool)):
             return NotImplemented
-        eo = as_z3_int(o)
-        if ctx().decide(eo < 0):
-            raise ValueError("negative shift count")
-        K = small_range(o)
-        if K is not None:
-            r = mk(chain(eo, K, lambda k: self.e * z3.IntVal(1 << k)))
-            if isinstance(r, SymInt):
-                if self.width is not None:
-                    r.width = self.width + K - 1
-            return r
         r = mk(self.e * pow2f(eo))
         if isinstance(r, SymInt):
             r.lowzeros = eo
@@ -661,16 +752,9 @@ class SymInt:
         eo = self.e
         if ctx().decide(eo < 0):
             raise ValueError("negative shift count")
-        K = small_range(self)
-        if K is not None:
-            r = mk(chain(eo, K, lambda k: z3.IntVal(o << k)))
-            if isinstance(r, SymInt):
-                if o == 1:
-                    r.pow2of = eo
-                    r.smallcount = K
-                if o >= 0:
-                    r.width = max(o.bit_length(), 1) + K - 1
-            return r
+        co = fork_value(self)
+        if co is not None:
+            return o << co
         r = mk(z3.IntVal(o) * pow2f(eo))
         if isinstance(r, SymInt):
             r.lowzeros = eo
@@ -680,24 +764,20 @@ class SymInt:
 
     def __rshift__(self, o):
         co = _concrete(o)
+        if co is None and isinstance(o, (SymInt, SymBool)):
+            eo = as_z3_int(o)
+            if ctx().decide(eo < 0):
+                raise ValueError("negative shift count")
+            co = fork_value(o)
         if co is not None:
             if co < 0:
                 raise ValueError("negative shift count")
-            r = mk(self.e / z3.IntVal(1 << co))
-            if isinstance(r, SymInt) and self.width is not None:
-                r.width = max(self.width - co, 1)
+            r = mk(div_pow2(self.e, co))
+            if isinstance(r, SymInt) and self.kb is not None:
+                r.kb = self.kb >> co
             return r
         if not isinstance(o, (SymInt, SymBool)):
             return NotImplemented
-        eo = as_z3_int(o)
-        if ctx().decide(eo < 0):
-            raise ValueError("negative shift count")
-        K = small_range(o)
-        if K is not None:
-            r = mk(chain(eo, K, lambda k: self.e / z3.IntVal(1 << k)))
-            if isinstance(r, SymInt) and self.width is not None:
-                r.width = self.width
-            return r
         return mk(self.e / pow2f(eo))
 
     def __rrshift__(self, o):
@@ -706,27 +786,38 @@ class SymInt:
         eo = self.e
         if ctx().decide(eo < 0):
             raise ValueError("negative shift count")
-        K = small_range(self)
-        if K is not None:
-            return mk(chain(eo, K, lambda k: z3.IntVal(o >> k)))
+        co = fork_value(self)
+        if co is not None:
+            return o >> co
         return mk(z3.IntVal(o) / pow2f(eo))
 
     # -- bitwise
     def __and__(self, o):
         co = _concrete(o)
         if co is not None:
+            if co >= 0 and self.kb is not None:
+                co = co & self.kb
             r = mk(and_const_z3(self.e, co))
             if isinstance(r, SymInt) and co >= 0:
-                r.width = max(co.bit_length(), 1)
+                r.kb = co
             return r
         if not isinstance(o, (SymInt, SymBool)):
             return NotImplemented
         if isinstance(o, SymBool):
             o = o._int()
-            o.width = 1
+            o.kb = 1
         return and_sym(self, o)
 
     __rand__ = __and__
+
+    def _kb_of(self, o):
+        if isinstance(o, bool):
+            return int(o)
+        if isinstance(o, int):
+            return o if o >= 0 else None
+        if isinstance(o, SymBool):
+            return 1
+        return getattr(o, "kb", None)
 
     def __or__(self, o):
         if not isinstance(o, (int, SymInt, SymBool)):
@@ -734,10 +825,9 @@ class SymInt:
         a = self & o
         r = self + o - a
         if isinstance(r, SymInt):
-            wa, wo = self.width, (o.bit_length() if isinstance(o, int) and o >= 0
-                                  else getattr(o, "width", None))
-            if wa is not None and wo is not None:
-                r.width = max(wa, wo, 1)
+            ka, ko = self.kb, self._kb_of(o)
+            if ka is not None and ko is not None:
+                r.kb = ka | ko
         return r
 
     __ror__ = __or__
@@ -748,10 +838,9 @@ class SymInt:
         a = self & o
         r = self + o - 2 * a
         if isinstance(r, SymInt):
-            wa, wo = self.width, (o.bit_length() if isinstance(o, int) and o >= 0
-                                  else getattr(o, "width", None))
-            if wa is not None and wo is not None:
-                r.width = max(wa, wo, 1)
+            ka, ko = self.kb, self._kb_of(o)
+            if ka is not None and ko is not None:
+                r.kb = ka | ko
         return r
 
     __rxor__ = __xor__
